@@ -32,6 +32,11 @@ def register(prop, J):
              # HTTP level against root-module bindings (appended last: existing jobs keep their derived seeds)
              J("hostile-http-v1", "v1", "resprops", "^TestC04", checks=(6000, 800000), shards=(4, 16), prepare="prepare_resources",
                extra_pkgs=["dyn", "gendrv"], timeout=(1200, 3000)),
+             # native fuzzing of whole requests against the generated server (thorough tier only)
+             J("fuzz-http-v2", "v2", "resprops", "^TestC04Requests$", tiers=("thorough",), shards=(1, 1), prepare="prepare_resources",
+               extra_pkgs=["dyn", "gendrv"], timeout=(900, 1200), opts={"fuzz": "FuzzC04HTTP", "fuzztime": (0, 180)}),
+             J("fuzz-http-v1", "v1", "resprops", "^TestC04Requests$", tiers=("thorough",), shards=(1, 1), prepare="prepare_resources",
+               extra_pkgs=["dyn", "gendrv"], timeout=(900, 1200), opts={"fuzz": "FuzzC04HTTP", "fuzztime": (0, 90)}),
          ],
          level_text="every decoder call runs under panic capture and a watchdog (30 s without progress = hang): the oracle is 'returns a "
                     "value or an error'; complete enumeration of short delimiter strings plus generated mutations of valid documents",
